@@ -132,6 +132,11 @@ class EvalDeriv(BaseOneIndex):
                 points, orders, center, angmom_comps, alphas, prim_coeffs, norm_prim_cart
             )
         elif deriv_type == "direct":
+            if np.any(orders > 2):
+                raise ValueError(
+                    "Derivative type 'direct' only supports orders of derivative up to 2 along each "
+                    "axis. Use 'general' for higher orders."
+                )
             output = _eval_first_second_order_deriv_contractions(
                 points, orders, center, angmom_comps, alphas, prim_coeffs, norm_prim_cart
             )
